@@ -26,6 +26,10 @@ def make(spec, lower, upper):
     if k == "const":
         c = spec["c"]
         return lambda y: c
+    if k == "offset":        # c + s * g(y): values that are large compared with their variation
+        g = make(spec["of"], lower, upper)
+        c, sc = spec["c"], spec["s"]
+        return lambda y: c + sc * g(y)
     if k == "linear":
         cs = spec["c"]
         return lambda y: sum(c * t for c, t in zip(cs, unit(y)))
@@ -64,6 +68,11 @@ def exact_min_and_L(spec, n):
     k = spec["kind"]
     if k == "const":
         return spec["c"], 0.0
+    if k == "offset":
+        inner = exact_min_and_L(spec["of"], n)
+        if inner is None or spec["s"] <= 0:
+            return None
+        return spec["c"] + spec["s"] * inner[0], spec["s"] * inner[1]
     if k == "linear":
         return sum(min(0.0, c) for c in spec["c"]), math.sqrt(sum(c * c for c in spec["c"]))
     if k in ("pwlsum", "pwlmax"):
